@@ -29,7 +29,7 @@ func (check) Cases(tier string) int {
 }
 
 func (check) Rule() string {
-	return "worlds of 1-6 settings (top-level and nested under s.) whose strings are expression trees of depth <= 3 (quick) / 5 over literals (incl. $ } : and blanks), references (also with computed names), default/alternative/error operators and escapes, plus typed plain settings (int, uint, float, bool, object, list); every referenced name is placed on a random subset of the layers root / 0-2 Env configs / 0-2 resolvers (incl. zero resolvers), each layer's value naming the layer; the root is built by one merge or by several merges in random order with values overwritten later (late binding). Every expression setting is read through String(), Unpack into interface{} and string fields, and (nested ones) a Child handle, and compared with the model evaluator; resolver call order is monitored. Non-trivial = the read involved at least one reference; distinct = distinct (world, setting)."
+	return "(1) worlds of 1-6 settings (top-level and nested under s.) whose strings are expression trees of depth <= 3 (quick) / 5 over literals (incl. $ } : and blanks, with $ and } at the start, in the middle and at the END of a literal, so escape sequences sit at every position of a string including its last two characters; outside ${} a } is spelled } or $} at random, the respelled text being merged later), references (also with computed names), default/alternative/error operators and escapes, plus typed plain settings (int, uint, float, bool, object, list); every referenced name is placed on a random subset of the layers root / 0-2 Env configs / 0-2 resolvers (incl. zero resolvers), each layer's value naming the layer; the root is built by one merge or by several merges in random order with values overwritten later (late binding). Every expression setting is read through String(), Unpack into interface{} and string fields, and (nested ones) a Child handle, and compared with the model evaluator; resolver call order is monitored. (2) forests (forest.go): 3-6 small source configurations and 1-3 trees over 8 totally ordered names (2 plain values naming their tree, 6 expressions over the names before them, so no cycles); every tree is assembled by 2-6 merges in random order of Go data, of source configurations and of trees built earlier (Merge of a *Config: the same expression gets copied into several trees, in which the names it refers to have different values or are missing), 0-2 resolvers; every tree is read in turn with all the other trees as Env configurations: each setting through String(), Unpack into interface{} / string fields, a Child handle, and the whole tree through one Unpack into a map, compared with an evaluator that expands every expression against the tree it lives in, then the Env configurations most recently added first, then the resolvers. Non-trivial = the read involved at least one reference; distinct = distinct (world or forest + tree read, setting)."
 }
 
 func (check) Assumptions() []string {
@@ -37,6 +37,8 @@ func (check) Assumptions() []string {
 		"model evaluator written from the statement (internal/model/varexp.go); spliced text is compared after the library's documented text->value step (parse.Value, checked on its own by C17), parse-neutral texts by plain equality",
 		"not demanded: ${x:+a} for x set to the empty string; exact error text",
 		"resolvers answer with parse.NoopConfig",
+		"forests: an expression living in an Env configuration is looked up in that Env configuration first (the tree it lives in), then in the Env configurations of the read, then in the resolvers; the configuration being read is not consulted for it. Cycles (C08) are excluded by construction; values are words that the text->value step leaves alone",
+		"a lone $ not followed by {, $ or } is not generated (the statement only pins down $$ and $})",
 	}
 }
 
@@ -191,7 +193,7 @@ func (check) Run(seed int64, tier string, idx int, verbose bool) harness.Result 
 	res := harness.NewR(idx)
 	runWorld(res, rand.New(rand.NewSource(harness.Mix(seed, "C02", idx))), tier, idx, verbose)
 	// second workload: expressions copied into several trees (forest.go)
-	runForest(res, rand.New(rand.NewSource(harness.Mix(seed, "C02-forest", idx))), idx, verbose)
+	runForest(res, rand.New(rand.NewSource(harness.Mix(seed, "C02-forest", idx))), tier, idx, verbose)
 	return res.Done()
 }
 
